@@ -44,7 +44,20 @@ var lC09Records = []string{
 	"NOERROR;TXT;x.net", "NOERROR;PTR;x.net.", "NOERROR;MX;10 x.net", "NOERROR;MX;10 y.net",
 }
 
+// lC09NoHandler are successful responses of record types WITHOUT a value parser
+// (the parsed value is nil whatever the text says): as exceptions they are
+// "exceptions with a value" that disable the rewrites of the same type only --
+// not the bare NOERROR rewrite, not records of other types, and they are not the
+// empty disable-everything value.
+var lC09NoHandler = []string{
+	"NOERROR;NS;x.net", "NOERROR;NS;y.net", "NOERROR;SOA;x.net", "NOERROR;CAA;0 issue x.net", "NOERROR;NAPTR;",
+	"NOERROR;DS;", "NOERROR;DNAME;x.net", "NOERROR;ANY;x",
+}
+
 func lC09Value(r *rng) string {
+	if r.chance(1, 8) {
+		return pick(r, lC09NoHandler)
+	}
 	switch r.n(10) {
 	case 0, 1:
 		return pick(r, lC09Bare)
@@ -76,7 +89,17 @@ func lC09Rule(r *rng, exc bool, v string, impNum, impDen int) string {
 func lC09Pair(r *rng) (rw, exc string) {
 	imp := func() (int, int) { return 1, 6 }
 	n, d := imp()
-	switch r.n(20) {
+	switch r.n(24) {
+	case 20, 21:
+		// a record type without a value parser as exception (value nil, type set) against anything:
+		// disables only rewrites of the same type
+		return lC09Rule(r, false, lC09Value(r), n, d), lC09Rule(r, true, pick(r, lC09NoHandler), n, d)
+	case 22:
+		// the same as rewrite, against bare NOERROR / empty / same-type / other-type exceptions
+		return lC09Rule(r, false, pick(r, lC09NoHandler), n, d), lC09Rule(r, true, pick(r, append(append([]string{""}, lC09Bare...), lC09NoHandler...)), n, d)
+	case 23:
+		// no-parser types against each other (NS x.net / NS y.net are the SAME value: nil)
+		return lC09Rule(r, false, pick(r, lC09NoHandler), 1, 2), lC09Rule(r, true, pick(r, lC09NoHandler), 1, 2)
 	case 0, 1, 2:
 		// the review's edge case: bare NOERROR rewrite, CNAME exception
 		return lC09Rule(r, false, pick(r, lC09Bare), n, d), lC09Rule(r, true, pick(r, lC09CNAMEs), n, d)
